@@ -294,6 +294,13 @@ func (c *capture) visitDir(v *vnode, dir string, out *oc.Node, depth int) {
 			if e.Name == "." || e.Name == ".." {
 				continue
 			}
+			if e.Name == "" {
+				// (through the kernel such a dirent makes the whole getdents fail with EIO)
+				c.violate("lower-view:empty-name-in-listing",
+					fmt.Sprintf("Readdir(%q) lists an entry with the EMPTY name (mode %o): %s; tar names of this directory = %q", dir, e.Mode, fmtListing(ents), raw),
+					map[string]any{"dir": dir})
+				continue
+			}
 			if _, dup := listed[e.Name]; dup {
 				c.violate("lower-view:duplicate-name-in-listing",
 					fmt.Sprintf("Readdir(%q) lists %q twice: %s", dir, e.Name, fmtListing(ents)), map[string]any{"dir": dir, "name": e.Name})
